@@ -50,7 +50,8 @@ def run(ctx):
         done = True
         others = [c for c in cb.calls() if re.search(r'(BTreeMap|VecDeque|Vec|HashMap)::(remove|clear|retain|drain|pop_front|pop_back)$', c.callee) and c not in rem]
         k = fmt_sym(cb, F.sym_operand(rem[0].args[1]))
-        key_ok = 'subscription_id' in k and 'sequence_number' in k and 'subscription_acknowledgement' in k
+        # both parts of the key are fields of the acknowledgement being processed (the closure's / loop's own item, whatever its name)
+        key_ok = re.match(r'^&tuple\{\(\*(\w+\(_\d+\))\)\.subscription_id, \(\*\1\)\.sequence_number\}$', k) is not None
         if key_ok and len(rem) == 1 and not others:
             r.ok(rule, 'ack:key', 'exactly one removal, keyed by the acknowledgement\'s (subscription_id, sequence_number)', loc=rem[0].loc)
         else:
@@ -108,6 +109,9 @@ def run(ctx):
             k = fmt_sym(b, F.sym_operand(g[0].args[1]))
             oks = result_ctor_sites(b, 'Ok')
             okv = [fmt_sym(b, F.sym_operand(b.stmts(bb)[si][2][4][0])) for bb, si, pl in oks]
+            # `.get(key).cloned().ok_or(code)` as the tail expression: the value comes out of the call chain
+            okv += [fmt_sym(b, F.sym_call(d[2])) for d in b.defs().get(0, []) if d[0] == 'call' and not d[2].callee.endswith('from_residual') and
+                    re.search(r'Option::ok_or(_else)?$', d[2].callee)]
             if 'subscription_id' in k and 'sequence_number' in k and okv and all('clone' in v.lower() and 'get' in v for v in okv):
                 r.ok(rule, 'republish:lookup', 'Ok(clone of retransmission_queue[(subscription_id, sequence_number)])', loc=g[0].loc)
             else:
